@@ -247,6 +247,7 @@ def run(ctx):
     C02round.ignored_gap_rule(ctx, repo)
     from sa.rules import C01pipe
     C01pipe.run(ctx, repo)
+    C01pipe.rst_rule(ctx, repo)
     from sa.rules import memo
     memo.run_for(ctx, repo, 'C01')
     return report.finish(ctx, EXPLANATION)
